@@ -215,7 +215,9 @@ Record Inv (y : sys) : Prop := {
   inv_flushed : s_buf (snd_ y) = [] \/ s_win (snd_ y) = 0;
   inv_data : toks_data (r_out (rcv_ y)) ++ buf_data (r_buf (rcv_ y)) ++ pkts_data (fwd y)
              ++ buf_data (s_buf (snd_ y)) = toks_data (written y);
-  inv_credit : s_win (snd_ y) + pkts_len (fwd y) + pkts_adj (back y) = eff_win (rcv_ y);
+  inv_credit : s_win (snd_ y) + pkts_len (fwd y) + pkts_adj (back y) <= eff_win (rcv_ y);
+  inv_credit_eq : stage_r (r_state (rcv_ y)) <> 2%nat ->
+                  s_win (snd_ y) + pkts_len (fwd y) + pkts_adj (back y) = eff_win (rcv_ y);
   inv_swin : 0 <= s_win (snd_ y);
   inv_ne : nonempty_entries (s_buf (snd_ y));
   inv_pkt : 1 <= s_pkt (snd_ y);
@@ -273,15 +275,20 @@ Lemma r_deliver_spec r dt d r' adj :
   r_deliver r dt d = (r', adj) ->
   zlen d <= r_win r -> r_win r <= r_init r -> 1 <= r_init r ->
   toks_data (r_out r') = toks_data (r_out r) ++ map (pair dt) d /\
-  r_win r' = r_win r - zlen d + pkts_adj adj /\
+  r_win r - zlen d + pkts_adj adj <= r_win r' /\
   r_buf r' = r_buf r /\ r_init r' = r_init r /\ r_paused r' = r_paused r /\ r_state r' = r_state r /\
   r_err r' = r_err r /\
   r_win r' <= r_init r' /\ r_init r' <= 2 * r_win r' /\
-  Forall (fun p => pkt_len p = 0) adj /\ 0 <= pkts_adj adj /\ Forall (fun p => 0 <= pkt_adj p) adj.
+  Forall (fun p => pkt_len p = 0) adj /\ 0 <= pkts_adj adj /\ Forall (fun p => 0 <= pkt_adj p) adj /\
+  (stage_r (r_state r) <> 2%nat -> r_win r' = r_win r - zlen d + pkts_adj adj).
 Proof.
   unfold r_deliver. intros H Hd Hw Hi. pose proof (zlen_nonneg d) as Hdn.
-  destruct (2 * (r_win r - zlen d) <? r_init r) eqn:E; inversion H; subst; simpl;
-    rewrite toks_data_app, toks_data_toks_of; repeat split; auto; try lia; repeat constructor; simpl; lia.
+  destruct (2 * (r_win r - zlen d) <? r_init r) eqn:E.
+  - unfold r_sclosed in H. destruct (r_state r) eqn:Es; inversion H; subst; simpl;
+      rewrite toks_data_app, toks_data_toks_of, ?Es; repeat split; auto; try lia; repeat constructor;
+      simpl; try lia; intros X; exfalso; apply X; reflexivity.
+  - inversion H; subst; simpl. rewrite toks_data_app, toks_data_toks_of.
+    repeat split; auto; try lia; repeat constructor.
 Qed.
 
 Lemma r_drain_spec buf : forall r k bk r' rest bk',
@@ -289,8 +296,9 @@ Lemma r_drain_spec buf : forall r k bk r' rest bk',
   buf_len buf <= r_win r -> r_win r <= r_init r -> 1 <= r_init r ->
   toks_data (r_out r') ++ buf_data rest = toks_data (r_out r) ++ buf_data buf /\
   (exists adj, bk' = bk ++ adj /\ Forall (fun p => pkt_len p = 0) adj /\
-     r_win r' - buf_len rest = r_win r - buf_len buf + pkts_adj adj /\
-     Forall (fun p => 0 <= pkt_adj p) adj) /\
+     r_win r - buf_len buf + pkts_adj adj <= r_win r' - buf_len rest /\
+     Forall (fun p => 0 <= pkt_adj p) adj /\
+     (stage_r (r_state r) <> 2%nat -> r_win r' - buf_len rest = r_win r - buf_len buf + pkts_adj adj)) /\
   r_init r' = r_init r /\ r_state r' = r_state r /\ r_err r' = r_err r /\
   r_win r' <= r_init r' /\ buf_len rest <= r_win r' /\
   (r_init r <= 2 * r_win r -> r_init r' <= 2 * r_win r') /\
@@ -300,39 +308,45 @@ Proof.
   - simpl in H. inversion H; subst. repeat split; auto; try lia.
     exists []. rewrite app_nil_r. repeat split; auto; try (simpl; lia); try constructor.
   - simpl in H. simpl in Hb. pose proof (buf_len_nonneg b) as Hbn. pose proof (zlen_nonneg d) as Hdn.
+    assert (Hstep : forall k', r_drain (fst (r_deliver r dt d)) b k' (bk ++ snd (r_deliver r dt d)) = (r', rest, bk') ->
+              ((match k' with None => true | Some n => Nat.ltb (length b) n end) = true ->
+               (match k with None => true | Some n => Nat.ltb (length ((dt, d) :: b)) n end) = true) \/ True ->
+              toks_data (r_out r') ++ buf_data rest = toks_data (r_out r) ++ buf_data ((dt, d) :: b) /\
+              (exists adj, bk' = bk ++ adj /\ Forall (fun p => pkt_len p = 0) adj /\
+                 r_win r - buf_len ((dt, d) :: b) + pkts_adj adj <= r_win r' - buf_len rest /\
+                 Forall (fun p => 0 <= pkt_adj p) adj /\
+                 (stage_r (r_state r) <> 2%nat ->
+                  r_win r' - buf_len rest = r_win r - buf_len ((dt, d) :: b) + pkts_adj adj)) /\
+              r_init r' = r_init r /\ r_state r' = r_state r /\ r_err r' = r_err r /\
+              r_win r' <= r_init r' /\ buf_len rest <= r_win r' /\
+              (r_init r <= 2 * r_win r -> r_init r' <= 2 * r_win r') /\
+              ((match k' with None => true | Some n => Nat.ltb (length b) n end) = true -> rest = [])).
+    { intros k' H' _. destruct (r_deliver r dt d) as [r1 adj1] eqn:E. simpl in H'.
+      apply r_deliver_spec in E; try lia.
+      destruct E as (Ho & Hw1 & _ & Hi1 & _ & Hs1 & He1 & Hwi & Hhalf & Hadj1 & Hadjpos & Hadjall & Hweq).
+      apply IH in H'; try lia.
+      destruct H' as (Hd' & (adj & -> & Hadj & Hwr & Hadjp & Hwreq) & Hi' & Hs' & He' & Hwi' & Hbl' & Hh' & Hk).
+      split.
+      { rewrite Hd', Ho. change (buf_data ((dt, d) :: b)) with (map (pair dt) d ++ buf_data b).
+        rewrite <- app_assoc. reflexivity. }
+      split.
+      { exists (adj1 ++ adj). rewrite app_assoc. repeat split; auto.
+        - apply Forall_app; split; assumption.
+        - rewrite pkts_adj_app. simpl. lia.
+        - apply Forall_app; split; assumption.
+        - intros Hst. rewrite pkts_adj_app. simpl.
+          assert (Hst1 : stage_r (r_state r1) <> 2%nat) by (rewrite Hs1; exact Hst).
+          specialize (Hwreq Hst1). specialize (Hweq Hst). lia. }
+      repeat split; try congruence; try lia; try (intros _; apply Hh'; lia); exact Hk. }
     destruct k as [[|j]|].
     + inversion H; subst. repeat split; auto; try lia; try discriminate.
       exists []. rewrite app_nil_r. repeat split; auto; try (simpl; lia); try constructor.
-    + destruct (r_deliver r dt d) as [r1 adj1] eqn:E.
-      apply r_deliver_spec in E; try lia.
-      destruct E as (Ho & Hw1 & _ & Hi1 & _ & Hs1 & He1 & Hwi & Hhalf & Hadj1 & Hadjpos & Hadjall).
-      apply IH in H; try lia.
-      destruct H as (Hd' & (adj & -> & Hadj & Hwr & Hadjp) & Hi' & Hs' & He' & Hwi' & Hbl' & Hh' & Hk).
-        split.
-        { rewrite Hd', Ho. change (buf_data ((dt, d) :: b)) with (map (pair dt) d ++ buf_data b).
-          rewrite <- app_assoc. reflexivity. }
-        split.
-        { exists (adj1 ++ adj). rewrite app_assoc. repeat split; auto.
-          - apply Forall_app; split; assumption.
-          - rewrite pkts_adj_app. simpl. lia.
-          - apply Forall_app; split; assumption. }
-        repeat split; try congruence; try lia; try discriminate;
-          try (intros _; apply Hh'; lia); try (intros X; apply Hk; simpl in X |- *; exact X).
-    + destruct (r_deliver r dt d) as [r1 adj1] eqn:E.
-      apply r_deliver_spec in E; try lia.
-      destruct E as (Ho & Hw1 & _ & Hi1 & _ & Hs1 & He1 & Hwi & Hhalf & Hadj1 & Hadjpos & Hadjall).
-      apply IH in H; try lia.
-      destruct H as (Hd' & (adj & -> & Hadj & Hwr & Hadjp) & Hi' & Hs' & He' & Hwi' & Hbl' & Hh' & Hk).
-        split.
-        { rewrite Hd', Ho. change (buf_data ((dt, d) :: b)) with (map (pair dt) d ++ buf_data b).
-          rewrite <- app_assoc. reflexivity. }
-        split.
-        { exists (adj1 ++ adj). rewrite app_assoc. repeat split; auto.
-          - apply Forall_app; split; assumption.
-          - rewrite pkts_adj_app. simpl. lia.
-          - apply Forall_app; split; assumption. }
-        repeat split; try congruence; try lia; try discriminate;
-          try (intros _; apply Hh'; lia); try (intros X; apply Hk; simpl in X |- *; exact X).
+    + destruct (r_deliver r dt d) as [r1 adj1] eqn:E. simpl in Hstep.
+      destruct (Hstep (Some j) H (or_intror I)) as (A1 & A2 & A3 & A4 & A5 & A6 & A7 & A8 & A9).
+      repeat split; auto.
+    + destruct (r_deliver r dt d) as [r1 adj1] eqn:E. simpl in Hstep.
+      destruct (Hstep None H (or_intror I)) as (A1 & A2 & A3 & A4 & A5 & A6 & A7 & A8 & A9).
+      repeat split; auto.
 Qed.
 
 
@@ -411,6 +425,7 @@ Proof.
   - rewrite Hwr, <- inv_data0, pkts_data_app. rewrite <- !app_assoc. do 2 f_equal.
     f_equal. rewrite <- Hdd. exact Hd.
   - rewrite pkts_len_app. lia.
+  - intros X. specialize (inv_credit_eq0 X). rewrite pkts_len_app. lia.
   - lia.
   - apply Forall_app. split; assumption.
 Qed.
@@ -423,7 +438,9 @@ Record RPre (r : receiver) : Prop := {
 
 Record RStep (r r' : receiver) (adj : list pkt) (X : list (Z * Z)) (dl : Z) : Prop := {
   rs_data : toks_data (r_out r') ++ buf_data (r_buf r') = toks_data (r_out r) ++ buf_data (r_buf r) ++ X;
-  rs_win : eff_win r' = eff_win r - dl + pkts_adj adj;
+  rs_win : eff_win r - dl + pkts_adj adj <= eff_win r';
+  rs_win_eq : stage_r (r_state r') <> 2%nat -> eff_win r' = eff_win r - dl + pkts_adj adj;
+  rs_mono : stage_r (r_state r') <> 2%nat -> stage_r (r_state r) <> 2%nat;
   rs_adjpos : Forall (fun p => 0 <= pkt_adj p) adj;
   rs_adjlen : Forall (fun p => pkt_len p = 0) adj;
   rs_init : r_init r' = r_init r;
@@ -451,17 +468,22 @@ Proof.
     by (destruct strict; lia).
   rewrite Hav in H. destruct d as [|x d'].
   - inversion H; subst. split; [|assumption].
-    constructor; simpl; rewrite ?app_nil_r; auto; try lia; try (unfold zlen; simpl; lia); try constructor.
+    constructor; simpl; rewrite ?app_nil_r; auto; try lia; try (unfold zlen; simpl; lia); try constructor;
+      try (intros _; unfold zlen; simpl; lia).
   - destruct (r_paused r) eqn:Ep.
     + inversion H; subst. split; [|reflexivity]. constructor; simpl; auto; try constructor; try discriminate.
       * rewrite buf_data_app. simpl. rewrite app_nil_r. reflexivity.
       * unfold eff_win. simpl. rewrite buf_len_app. simpl. lia.
+      * intros _. unfold eff_win. simpl. rewrite buf_len_app. simpl. lia.
+      * rewrite Hst. discriminate.
     + specialize (Hu eq_refl). rewrite Hu in *. simpl in *.
       apply r_deliver_spec in H; try lia.
-      destruct H as (Ho & Hw1 & Hb1 & Hi1 & Hp1 & Hs1 & He1 & Hwi & Hhalf & Hadj1 & _ & Hadjall).
+      destruct H as (Ho & Hw1 & Hb1 & Hi1 & Hp1 & Hs1 & He1 & Hwi & Hhalf & Hadj1 & _ & Hadjall & Hweq).
       split; [|congruence]. constructor; auto; try congruence.
       * rewrite Hb1, Hu, Ho. simpl. rewrite !app_nil_r. reflexivity.
       * unfold eff_win. rewrite Hb1, Hu. simpl. lia.
+      * intros _. unfold eff_win. rewrite Hb1, Hu. simpl.
+        assert (X : stage_r (r_state r) <> 2%nat) by (rewrite Hst; discriminate). specialize (Hweq X). lia.
 Qed.
 
 Lemma r_flush_step r k r' adj :
@@ -472,10 +494,13 @@ Proof.
   destruct (r_drain _ _ _ _) as [[r1 rest] bk] eqn:E.
   pose proof (buf_len_nonneg (r_buf r)) as Hbn. unfold eff_win in He.
   apply r_drain_spec in E; simpl; try lia.
-  destruct E as (Hd' & (adj0 & Hbk & Hadj & Hwr & Hadjp) & Hi' & Hs' & He' & Hwi' & Hbl' & Hh' & Hk).
+  destruct E as (Hd' & (adj0 & Hbk & Hadj & Hwr & Hadjp & Hweq) & Hi' & Hs' & He' & Hwi' & Hbl' & Hh' & Hk).
   simpl in *. subst bk.
   match type of H with (r_finish ?R, _) = _ => pose proof (r_finish_facts R) as (F1 & F2 & F3 & F4 & F5 & F6 & F7) end.
-  inversion H; subst. simpl in *. split; [|congruence].
+  injection H as Hr Ha. subst adj0.
+  assert (Hstage : stage_r (r_state r') = stage_r (r_state r)) by (rewrite <- Hr, F7; simpl; rewrite Hs'; reflexivity).
+  subst r'. simpl in *.
+  split; [|exact Hstage].
   constructor; unfold eff_win; rewrite ?F1, ?F2, ?F3, ?F4, ?F5, ?F6; simpl; auto; try lia; try congruence.
   - rewrite app_nil_r. exact Hd'.
   - intros X. apply Hk. destruct k as [n|]; [|reflexivity].
@@ -492,9 +517,11 @@ Proof.
   constructor; unfold eff_win; rewrite ?A, ?B, ?C, ?D, ?E; auto.
 Qed.
 
-Lemma RStep_core r0 r r' adj X dl : same_core r0 r -> RStep r0 r' adj X dl -> RStep r r' adj X dl.
+Lemma RStep_core r0 r r' adj X dl :
+  same_core r0 r -> (stage_r (r_state r0) <> 2%nat -> stage_r (r_state r) <> 2%nat) ->
+  RStep r0 r' adj X dl -> RStep r r' adj X dl.
 Proof.
-  intros (A & B & C & D & E & F) [S1 S2 S3 S4 S5 S6 S7 S8 S9]. unfold eff_win in *.
+  intros (A & B & C & D & E & F) Hm [S1 S2 S2e S2m S3 S4 S5 S6 S7 S8 S9]. unfold eff_win in *.
   constructor; unfold eff_win; rewrite <- ?A, <- ?B, <- ?C, <- ?F; auto.
 Qed.
 
@@ -504,7 +531,7 @@ Proof.
   intros [Hrw Hh Hi Hu He Hn].
   pose proof (r_finish_facts r0) as (F1 & F2 & F3 & F4 & F5 & F6 & F7).
   split; [|exact F7].
-  constructor; unfold eff_win; rewrite ?F1, ?F2, ?F3, ?F4, ?F5, ?F6; simpl; auto; try lia; try constructor.
+  constructor; unfold eff_win; rewrite ?F1, ?F2, ?F3, ?F4, ?F5, ?F6, ?F7; simpl; auto; try lia; try constructor.
   rewrite app_nil_r. reflexivity.
 Qed.
 
@@ -517,8 +544,10 @@ Proof.
   assert (Hc : same_core r0 r) by (unfold same_core; simpl; rewrite (rp_noerr _ P); auto 10).
   pose proof (RPre_core _ _ Hc P) as P0.
   destruct (r_paused r) eqn:Ep.
-  - inversion H; subst. destruct (finish_step r0 P0) as [A B]. split; [eapply RStep_core; eauto|exact B].
-  - apply r_flush_step in H; [|exact P0]. destruct H as [A B]. split; [eapply RStep_core; eauto|exact B].
+  - inversion H; subst. destruct (finish_step r0 P0) as [A B].
+    split; [eapply RStep_core; eauto; intros _; rewrite Hst; discriminate|exact B].
+  - apply r_flush_step in H; [|exact P0]. destruct H as [A B].
+    split; [eapply RStep_core; eauto; intros _; rewrite Hst; discriminate|exact B].
 Qed.
 
 Lemma r_close_step r r' adj :
@@ -532,8 +561,10 @@ Proof.
   assert (Hgo : (if r_paused r then (r_finish r0, []) else r_flush r0 None) = (r', adj)).
   { destruct (r_state r); simpl in Hst; try lia; exact H. }
   clear H. destruct (r_paused r) eqn:Ep.
-  - inversion Hgo; subst. destruct (finish_step r0 P0) as [A B]. split; [eapply RStep_core; eauto|exact B].
-  - apply r_flush_step in Hgo; [|exact P0]. destruct Hgo as [A B]. split; [eapply RStep_core; eauto|exact B].
+  - inversion Hgo; subst. destruct (finish_step r0 P0) as [A B].
+    split; [eapply RStep_core; eauto; simpl; intros X; exfalso; apply X; reflexivity|exact B].
+  - apply r_flush_step in Hgo; [|exact P0]. destruct Hgo as [A B].
+    split; [eapply RStep_core; eauto; simpl; intros X; exfalso; apply X; reflexivity|exact B].
 Qed.
 
 Lemma Inv_RPre y : Inv y -> RPre (rcv_ y).
@@ -552,11 +583,12 @@ Lemma after_rcv y r' adj X dl fwd' :
   walk (stage_r (r_state r')) fwd' = Some (stage_s (s_state (snd_ y))) ->
   Inv (mkSys (snd_ y) r' fwd' (back y ++ adj) (written y) (stuck y)).
 Proof.
-  intros I [A B C D E F G H J] Hd Hl Hf Hw. destruct I.
+  intros I [A B Be Bm C D E F G H J] Hd Hl Hf Hw. destruct I.
   constructor; simpl; auto; try lia.
   - apply Forall_app; split; assumption.
   - rewrite <- inv_data0. rewrite Hd. rewrite !app_assoc. do 2 f_equal. rewrite <- !app_assoc. exact A.
   - rewrite pkts_adj_app. lia.
+  - intros X0. specialize (Be X0). specialize (inv_credit_eq0 (Bm X0)). rewrite pkts_adj_app. lia.
   - apply Forall_app; split; assumption.
 Qed.
 
@@ -715,9 +747,13 @@ Proof.
   intros Hw Hp H y Hf Hb Hpa. pose proof (run_inv strict _ _ _ Hw Hp H) as I. fold y in I.
   pose proof (inv_unpaused _ I Hpa) as Hrb.
   assert (Hs : s_buf (snd_ y) = []).
-  { destruct (inv_flushed _ I) as [E|E]; [exact E|].
-    pose proof (inv_credit _ I) as Hc. unfold eff_win in Hc. rewrite Hf, Hb, Hrb, E in Hc. simpl in Hc.
-    pose proof (inv_half _ I). pose proof (inv_init _ I). lia. }
+  { destruct (Nat.eq_dec (stage_r (r_state (rcv_ y))) 2) as [E2|E2].
+    - (* the receiver has seen CLOSE: with an empty wire the sender is closed too *)
+      pose proof (inv_walk _ I) as Hwk. rewrite Hf in Hwk. simpl in Hwk. rewrite E2 in Hwk.
+      apply (inv_sdone _ I). right. destruct (s_state (snd_ y)); simpl in Hwk; try discriminate; reflexivity.
+    - destruct (inv_flushed _ I) as [E|E]; [exact E|].
+      pose proof (inv_credit_eq _ I E2) as Hc. unfold eff_win in Hc. rewrite Hf, Hb, Hrb, E in Hc. simpl in Hc.
+      pose proof (inv_half _ I). pose proof (inv_init _ I). lia. }
   split; [|exact Hs].
   pose proof (inv_data _ I) as Hd. rewrite Hf, Hrb, Hs in Hd. simpl in Hd. rewrite app_nil_r in Hd. exact Hd.
 Qed.
@@ -730,15 +766,18 @@ Proof.
   intros Hw Hp H y. pose proof (run_inv strict _ _ _ Hw Hp H) as I. split; [apply (inv_noerr _ I)|apply (inv_nostuck _ I)].
 Qed.
 
-(* the sender never has more in flight than the receiver's window allows *)
+(* the sender never has more in flight than the receiver's window allows; until the receiver has
+   seen CLOSE the accounting is exact *)
 Theorem sender_within_window strict window pktsize ops :
   1 <= window -> 1 <= pktsize -> Forall honest ops ->
   let y := run strict window pktsize ops in
   0 <= s_win (snd_ y) /\
-  s_win (snd_ y) + pkts_len (fwd y) + pkts_adj (back y) = r_win (rcv_ y) - buf_len (r_buf (rcv_ y)).
+  s_win (snd_ y) + pkts_len (fwd y) + pkts_adj (back y) <= r_win (rcv_ y) - buf_len (r_buf (rcv_ y)) /\
+  (stage_r (r_state (rcv_ y)) <> 2%nat ->
+   s_win (snd_ y) + pkts_len (fwd y) + pkts_adj (back y) = r_win (rcv_ y) - buf_len (r_buf (rcv_ y))).
 Proof.
   intros Hw Hp H y. pose proof (run_inv strict _ _ _ Hw Hp H) as I.
-  split; [apply (inv_swin _ I)|apply (inv_credit _ I)].
+  split; [apply (inv_swin _ I)|split; [apply (inv_credit _ I)|apply (inv_credit_eq _ I)]].
 Qed.
 
 (* every data packet the send loop emits carries at least one byte and at most min(window, pktsize) *)
